@@ -55,6 +55,11 @@ def instances(tier, seed):
         out.append({'id': f'optimize:w={w}:C=2', 'what': 'optimize', 'w': w, 'C': 2, 'wseed': seed})
     if tier == 'thorough':
         out.append({'id': 'optimize:w=[2, 8]:C=3', 'what': 'optimize', 'w': [2, 8], 'C': 3, 'wseed': seed})
+    # layers wider than one NE16 tile (32 channels): the channel COUNTS per precision are z3 integers concretised by forking (every composition
+    # on the grid is one path); the coefficient matrices are near one-hot realisations of the counts
+    step = 8 if tier == 'quick' else 4
+    for lo in range(0, 65, 16):
+        out.append({'id': f'optimize_counts:C=64:n2 in [{lo},{min(lo + 15, 64)}]:step={step}', 'what': 'counts', 'C': 64, 'lo': lo, 'hi': min(lo + 15, 64), 'step': step, 'wseed': seed})
     return out
 
 
@@ -143,9 +148,69 @@ def run_instance(p):
     selftest = p.get('selftest', False)
     if p['what'] == 'reassign':
         _run_reassign(res, p, selftest)
+    elif p['what'] == 'counts':
+        _run_counts(res, p, selftest)
     else:
         _run_optimize(res, p, selftest)
     return res
+
+
+def _alphas_for_counts(m, counts, w):
+    """near one-hot coefficient matrix of the first per-channel weight quantiser with the given channel counts per precision"""
+    vals = {}
+    for n, q in mpslib.quantizers(m):
+        if 'c0.w_mps_quantizer' in n:
+            P, C = q.alpha.shape
+            A = torch.full((P, C), 0.0)
+            c = 0
+            for pi, k in enumerate(counts):
+                for _ in range(k):
+                    A[pi, c] = 1.0 - 0.001 * (c % 7)
+                    c += 1
+            vals[n] = [str(Fraction(float(v)).limit_denominator(1000)) for v in A.reshape(-1)]
+    return vals
+
+
+def _run_counts(res, p, selftest):
+    C, lo, hi, step, wseed = p['C'], p['lo'], p['hi'], p['step'], p.get('wseed', 0)
+    w = [2, 4, 8]
+
+    def fn(ex):
+        n2, n4 = z3.Int('n2'), z3.Int('n4')
+        ex.assume(n2 >= lo, n2 <= hi, n2 % step == 0, n4 >= 0, n4 % step == 0, n2 + n4 <= C)
+        a = int(st.concretize_scalar(n2))
+        b = int(st.concretize_scalar(n4))
+        return [a, b, C - a - b]
+    ex = Explorer(timeout_ms=Q)
+    for pc, counts in ex.explore(fn):
+        m = _mk_model(w, C, wseed)
+        alphas = _alphas_for_counts(m, counts, w)
+        mpslib.set_alphas(m, alphas)
+        prob, info = observe_optimize(m)
+        if selftest and counts[0] == lo:
+            prob = ('cost_increased', 'seeded')
+        res.oblige(prob is None)
+        if ex.n_paths <= 2:
+            res.sample({'C': C, 'counts(2,4,8 bit)': counts, 'result': {k: (v if not isinstance(v, dict) else {a: (b if not isinstance(b, list) else [b.count(x) for x in (2, 4, 8)]) for a, b in v.items()}) for k, v in info.items()}})
+        if prob is None:
+            res.validated += 1
+            continue
+        key = f'fn:optimize_prec_assignment|obs:{prob[0]}|C={C}' + ('|selftest' if selftest else '')
+        if any(v['key'] == key for v in res.violations):
+            continue
+        rec = {'what_kind': 'optimize', 'w': w, 'C': C, 'wseed': wseed, 'alphas': alphas, 'observable': prob[0], 'key': key, 'what': f'optimize_prec_assignment with channel counts {counts}: {prob[1]}'[:400]}
+        if selftest:
+            res.violations.append(jsonable(rec))
+            continue
+        okr, msg = replay(jsonable(rec))
+        if okr:
+            rec['replay_msg'] = msg[:400]
+            res.violations.append(jsonable(rec))
+        else:
+            res.errors.append(f'counterexample did not reproduce: {key}: {msg[:300]}')
+    res.witnesses += 1
+    res.witnesses_ok += 1 if ex.n_paths >= 1 else 0
+    res.absorb(ex)
 
 
 def _run_reassign(res, p, selftest):
